@@ -2,41 +2,26 @@
 From JV Require Import Sem Gen Spec SpecX.
 From JV.Proofs Require Import SpecFacts Cal Core Inner Boundary AtJdn.
 Require JV.Proofs.Enums.
+Require JV.Proofs.Glue_C15_core.
 Open Scope Z_scope.
 
 Theorem C15_cycle : forall j, in_i32 j ->
   exists w, Weekday_for_jdn j = Ret w /\ Weekday_discr w = j mod 7 + 1 /\ Weekday_number w = Ret (j mod 7 + 1).
-Proof.
-  intros j H. exists (weekday_of_number (j mod 7 + 1)). split; [apply for_jdn_ok; exact H|].
-  assert (1 <= j mod 7 + 1 <= 7) by (pose proof (Z.mod_pos_bound j 7 ltac:(lia)); lia).
-  split; [apply weekday_number_of; assumption|unfold Weekday_number; rewrite weekday_number_of by assumption; reflexivity].
-Qed.
+Proof. exact JV.Proofs.Glue_C15_core.C15_cycle_lemma. Qed.
 Print Assumptions C15_cycle.
 (* Monday exactly when j = 0 (mod 7); one weekday later per day *)
 Theorem C15_monday_and_successor : forall j, in_i32 j -> in_i32 (j + 1) ->
   exists w w', Weekday_for_jdn j = Ret w /\ Weekday_for_jdn (j + 1) = Ret w' /\
     (w = Weekday_Monday <-> j mod 7 = 0) /\ Weekday_discr w' = Weekday_discr w mod 7 + 1.
-Proof.
-  intros j H H'. exists (weekday_of_number (j mod 7 + 1)), (weekday_of_number ((j + 1) mod 7 + 1)).
-  split; [apply for_jdn_ok; exact H|]. split; [apply for_jdn_ok; exact H'|].
-  pose proof (Z.mod_pos_bound j 7 ltac:(lia)). pose proof (Z.mod_pos_bound (j + 1) 7 ltac:(lia)).
-  rewrite !weekday_number_of by lia. split.
-  - split; intros X.
-    + apply (f_equal Weekday_discr) in X. rewrite weekday_number_of in X by lia. cbn in X. lia.
-    + replace (j mod 7 + 1) with 1 by lia. reflexivity.
-  - assert ((j + 1) mod 7 = (j mod 7 + 1) mod 7) by (rewrite Z.add_mod_idemp_l by lia; reflexivity). lia.
-Qed.
+Proof. exact JV.Proofs.Glue_C15_core.C15_monday_and_successor_lemma. Qed.
 Print Assumptions C15_monday_and_successor.
 Theorem C15_anchor : Weekday_for_jdn 2460066 = Ret Weekday_Monday /\ Weekday_for_jdn 0 = Ret Weekday_Monday /\ Weekday_for_jdn (-1) = Ret Weekday_Sunday.
-Proof. repeat split; vm_compute; reflexivity. Qed.
+Proof. exact JV.Proofs.Glue_C15_core.C15_anchor_lemma. Qed.
 Print Assumptions C15_anchor.
 (* a date's weekday depends only on its day number, never on the calendar *)
 Theorem C15_calendar_independent : forall c c' j, ValidCal c -> ValidCal c' -> in_i32 j ->
   exists d d', Calendar_at_jdn (cal_of c) j = Ret d /\ Calendar_at_jdn (cal_of c') j = Ret d' /\ Date_weekday d = Date_weekday d' /\ Date_weekday d = Weekday_for_jdn j.
-Proof.
-  intros c c' j V V' H. exists (date_of c j), (date_of c' j). split; [apply at_jdn_ok; assumption|]. split; [apply at_jdn_ok; assumption|].
-  rewrite !weekday_ok by exact H. rewrite for_jdn_ok by exact H. split; reflexivity.
-Qed.
+Proof. exact JV.Proofs.Glue_C15_core.C15_calendar_independent_lemma. Qed.
 Print Assumptions C15_calendar_independent.
 
 (* numbers, successors and predecessors of the two enums: Monday = 1 ... Sunday = 7, January = 1 ... December = 12;
